@@ -74,7 +74,14 @@ def work(job):
     with core.Session(r) as s:
         for i in range(lo, hi):
             rng = core.job_rng(seed, ID, i)
-            if rng.random() < 0.3:
+            if rng.random() < 0.06:
+                # the document ends inside a metadata value / heading / paragraph, without a final line break, on a byte-special character
+                tail = lead_payload(rng, 'eof')
+                text = rng.choice(['Title: x\nAuthor: J\u00fcrgen zz%s', 'Title: zz%s', 'k: v\nLast Key: zz\u20ac%s', '# Head zz%s', 'para\n\nlast line zz%s', '* item zz%s', '[^n]: note zz%s',
+                                   '| a | zz%s', 'term\n: def zz%s', '> quote zz%s', '```\ncode zz%s', 'Title: t\n\n[link]: http://example.com/zz%s']) % tail
+                sl = []
+                r.stats['eof_documents'] += 1
+            elif rng.random() < 0.3:
                 # byte-special characters alone, right after a block marker or right before the line end (where stripping code cuts by bytes)
                 text, sl = slots.build(rng, lead_payload, kinds=slots.LEADING_KINDS, nslots=rng.randint(3, 6), eol=rng.choice(['\n', '\n', '\r\n']))
                 r.stats['leading_position_documents'] += 1
